@@ -288,7 +288,9 @@ class Ctx:
         return self.runners[k]
 
     def run(self, flavour, sc, timeout=120.0, key=None, extra_env=None, fresh=None):
-        return self.runner(flavour, key, extra_env).run(sc, timeout=timeout, fresh=self.fresh if fresh is None else fresh)
+        # replay mode (self.fresh): every runner process is started afresh for the case and then kept for all scenarios of
+        # that case, so that state leaking between the scenarios of one case (process-global state in the library) reproduces
+        return self.runner(flavour, key, extra_env).run(sc, timeout=timeout, fresh=bool(fresh))
 
     def close(self):
         for r in self.runners.values():
